@@ -236,3 +236,56 @@ func VerifC17Mcrew() {
 		verif.Assert("no-data-race", false)
 	}
 }
+
+// VerifC17McrewTime: the same statement with TIME as a solver variable: a timer is made with an arbitrary
+// delay d1, the requester waits an arbitrary time p and then cancels it, makes it again, or makes another
+// one with an arbitrary delay d2 (all between 1 ms and 500 ms, as nanoseconds chosen by the solver).  Which
+// of expiry and request comes first - or whether they coincide - is decided by the solver for ALL values of
+// the delays; the event log is checked as in VerifC17Mcrew.
+func VerifC17McrewTime() {
+	d1 := time.Duration(verif.AnyInt("d1", 1_000_000, 500_000_000))
+	p := time.Duration(verif.AnyInt("p", 1_000_000, 500_000_000))
+	d2 := time.Duration(verif.AnyInt("d2", 1_000_000, 500_000_000))
+	lg := &c17log{}
+	var ts *Timers
+	ctx, cancel := context.WithCancel(context.Background())
+	defer cancel()
+	doAdd := func(id string, d time.Duration) error {
+		due := time.Now().UTC().Add(d)
+		err := ts.Add(ctx, id, id, d)
+		lg.add(c17ev{kind: "add", id: id, ok: err == nil, due: due})
+		return err
+	}
+	ts = NewTimers(func(ctx context.Context, msg interface{}) error {
+		id, _ := msg.(string)
+		lg.add(c17ev{kind: "fire", id: id})
+		return nil
+	})
+	doAdd("t1", d1)
+	time.Sleep(p)
+	switch verif.Choose("then", 3) {
+	case 0:
+		err := ts.Rem(ctx, "t1")
+		lg.add(c17ev{kind: "rem", id: "t1", ok: err == nil})
+	case 1:
+		doAdd("t1", d2)
+	default:
+		doAdd("t2", d2)
+	}
+	time.Sleep(2 * time.Second) // everything that was going to fire has fired
+	lg.Lock()
+	evs := append([]c17ev(nil), lg.evs...)
+	lg.Unlock()
+	pending := c17Check(evs, false)
+	verif.Assert("accepted-timer-fires", len(pending) == 0)
+	for _, id := range c17ids {
+		ts.Lock()
+		_, listed := ts.timers[id]
+		ts.Unlock()
+		verif.Assert("map-equals-pending-timers", !listed)
+	}
+	verif.Reach("time-done")
+	ts.Shutdown()
+	time.Sleep(10 * time.Millisecond)
+	verif.Assert("no-goroutine-left-after-shutdown", verif.Quiesce() == 0)
+}
